@@ -133,8 +133,11 @@ class Driver:
             vals = [round(v / 1000.0, 7) for v in vals]
         elif rnd.random() < 0.3:
             # the limits of the quantifier: |t| = 1000 m, |scale| = 100 ppm, rotations a hair below one arc-minute
+            # (a dated set is advanced by up to 0.002"/yr x 80 yr before the 7-parameter formula sees it: keep the advanced rotation
+            #  below one arc-minute too, or the call leaves the domain of C06 / C07)
             vals = [rnd.choice([-1000.0, 1000.0]), vals[1], rnd.choice([-1000.0, 1000.0]), rnd.choice([-100.0, 100.0]),
-                    rnd.choice([-59.99, 59.99, 59.999]), vals[5], rnd.choice([-59.99, 59.9999])]
+                    rnd.choice([-59.5, 59.5] if dated else [-59.99, 59.99, 59.999]), vals[5],
+                    rnd.choice([-59.5, 59.5] if dated else [-59.99, 59.9999])]
         rates = [round(rnd.uniform(-0.01, 0.01), 5) for _ in range(3)] + [round(rnd.uniform(-0.001, 0.001), 6)] + \
                 [round(rnd.uniform(-0.002, 0.002), 7) for _ in range(3)] if dated else [0.0] * 7
         ep = D(rnd.choice([1994, 2000, 2010, 2020]), 1, 1) if dated else 0
